@@ -4,9 +4,11 @@
     src/naive/time/mod.rs in Model/Time.v with trapping integer arithmetic ([Val]/[Panic]); the
     right-hand sides are the time-of-day mathematics of Spec/TimeOfDay.v (acceptance predicates,
     field decomposition, the one-leap-second timeline [tl_add]/[tl_diff]/[tl_shift]). *)
-From Coq Require Import ZArith List Bool.
+From Coq Require Import ZArith List Bool String.
 From V Require Import Base.Int Base.IO Model.TimeDelta Model.Time Spec.TimeOfDay Spec.Gregorian Proofs.C06 Proofs.Time Proofs.C07.
 From V Require Model.DateTime Proofs.C03 Proofs.C07Ndt.
+From V Require Import Model.C07 Proofs.C07Ops.
+Import ListNotations.
 Open Scope Z_scope.
 
 (* constructors: accepted exactly when hour < 24, minute < 60, second < 60 and the nanosecond field is
@@ -271,3 +273,131 @@ Example C07_ndt_leap_example :
     Proofs.C03.dn (DateTime.nd_date b) = Proofs.C03.dn Proofs.C07Ndt.leap_date + 1.
 Proof. exact Proofs.C07Ndt.ndt_leap_example. Qed.
 Print Assumptions C07_ndt_leap_example.
+
+(* ---- the deprecated panicking constructors (from_hms, from_hms_milli, from_hms_micro, from_hms_nano,
+   from_num_seconds_from_midnight): expect(..) of the _opt form — the same reading, the documented
+   panic exactly where the _opt form is None; all u32 arguments *)
+Theorem C07_panicking_ctors : forall h m s x, in_u32 h = true -> in_u32 m = true -> in_u32 s = true -> in_u32 x = true ->
+  unwrap_r (from_hms_opt h m s) = (if hms_ok h m s then Val (mk_time (secs_of_hms h m s) 0) else Panic) /\
+  unwrap_r (from_hms_milli_opt h m s x) =
+    (if accept_hms_nano h m s (x * 1000000) then Val (mk_time (secs_of_hms h m s) (x * 1000000)) else Panic) /\
+  unwrap_r (from_hms_micro_opt h m s x) =
+    (if accept_hms_nano h m s (x * 1000) then Val (mk_time (secs_of_hms h m s) (x * 1000)) else Panic) /\
+  unwrap_r (from_hms_nano_opt h m s x) =
+    (if accept_hms_nano h m s x then Val (mk_time (secs_of_hms h m s) x) else Panic).
+Proof. exact (fun h m s x H1 H2 H3 H4 => conj (phms_spec h m s H1 H2 H3) (conj (phms_milli_spec h m s x H1 H2 H3 H4)
+  (conj (phms_micro_spec h m s x H1 H2 H3 H4) (phms_nano_spec h m s x H1 H2 H3 H4)))). Qed.
+Print Assumptions C07_panicking_ctors.
+Theorem C07_panicking_ctor_secs : forall secs n, in_u32 secs = true -> in_u32 n = true ->
+  unwrap (from_num_seconds_from_midnight_opt secs n) =
+    if accept_secs_nano secs n then Val (mk_time secs n) else Panic.
+Proof. exact pnsfm_spec. Qed.
+Print Assumptions C07_panicking_ctor_secs.
+
+(* ---- operator forms.  time + d, time - d (and += / -=, which the dispatcher answers with the same
+   function: C07_dispatch) are the time of the overflowing forms, the carry dropped; time - time is
+   signed_duration_since; time +- FixedOffset is the shifted time, the day carry dropped *)
+Theorem C07_op_add_td : forall t d, tvalid t -> valid d ->
+  op_add_td t d = Val (fst (add_result (tsecs t) (tfrac t) (ns d))) /\
+  op_add_td t d = rmap fst (overflowing_add_signed t d).
+Proof. exact op_add_td_spec. Qed.
+Print Assumptions C07_op_add_td.
+Theorem C07_op_sub_td : forall t d, tvalid t -> valid d ->
+  op_sub_td t d = Val (fst (add_result (tsecs t) (tfrac t) (- ns d))) /\
+  op_sub_td t d = rmap fst (overflowing_sub_signed t d).
+Proof. exact op_sub_td_spec. Qed.
+Print Assumptions C07_op_sub_td.
+Theorem C07_op_sub_time : forall a b, tvalid a -> tvalid b ->
+  op_sub_time a b = signed_duration_since a b /\
+  exists d, op_sub_time a b = Val d /\ valid d /\ ns d = tl_diff (tsecs a) (tfrac a) (tsecs b) (tfrac b).
+Proof. exact op_sub_time_spec. Qed.
+Print Assumptions C07_op_sub_time.
+Theorem C07_op_offset : forall t off, tvalid t -> -86400 < off < 86400 ->
+  op_add_offset t off = Val (let '((s, f), _) := tl_shift (tsecs t) (tfrac t) off in mk_time s f) /\
+  op_sub_offset t off = Val (let '((s, f), _) := tl_shift (tsecs t) (tfrac t) (- off) in mk_time s f).
+Proof. exact op_offset_spec. Qed.
+Print Assumptions C07_op_offset.
+(* NaiveDateTime + / - TimeDelta: the value of the checked form (C07_ndt_leap_add / _sub say which),
+   the documented panic exactly when the checked form is None *)
+Theorem C07_ndt_op_forms : forall a d,
+  Proofs.C03.vdate (DateTime.nd_date a) -> tvalid (DateTime.nd_time a) -> valid d ->
+  (exists r, DateTime.ndt_checked_add_signed a d = Val r /\
+     unwrap_r (DateTime.ndt_checked_add_signed a d) = match r with Some b => Val b | None => Panic end) /\
+  (exists r, DateTime.ndt_checked_sub_signed a d = Val r /\
+     unwrap_r (DateTime.ndt_checked_sub_signed a d) = match r with Some b => Val b | None => Panic end).
+Proof. exact ndt_op_forms. Qed.
+Print Assumptions C07_ndt_op_forms.
+
+(* ---- Timelike called directly on a NaiveDateTime: the accessors are those of the time part (t_acc:
+   hour, minute, second, nanosecond, num_seconds_from_midnight, hour12 — C07_accessors, C07_hour12);
+   with_hour .. with_nanosecond are the time part's function with the date untouched *)
+Theorem C07_ndt_accessors : forall a, tvalid (DateTime.nd_time a) -> ndt_tacc a = Val (t_acc (DateTime.nd_time a)).
+Proof. exact ndt_tacc_spec. Qed.
+Print Assumptions C07_ndt_accessors.
+Theorem C07_ndt_with_time : forall a v,
+  DateTime.ndt_with 7 a v = on_time a (with_hour (DateTime.nd_time a) v) /\
+  DateTime.ndt_with 8 a v = on_time a (with_minute (DateTime.nd_time a) v) /\
+  DateTime.ndt_with 9 a v = on_time a (with_second (DateTime.nd_time a) v) /\
+  DateTime.ndt_with 10 a v = on_time a (Val (with_nanosecond (DateTime.nd_time a) v)).
+Proof. exact ndt_twith_spec. Qed.
+Print Assumptions C07_ndt_with_time.
+Theorem C07_ndt_with_time_values : forall a v, tvalid (DateTime.nd_time a) -> in_u32 v = true ->
+  let t := DateTime.nd_time a in let d := DateTime.nd_date a in
+  DateTime.ndt_with 7 a v = Val (if v <? 24 then Some (DateTime.mk_ndt d
+     (mk_time (secs_of_hms v (minute_of (tsecs t)) (second_of (tsecs t))) (tfrac t))) else None) /\
+  DateTime.ndt_with 8 a v = Val (if v <? 60 then Some (DateTime.mk_ndt d
+     (mk_time (secs_of_hms (hour_of (tsecs t)) v (second_of (tsecs t))) (tfrac t))) else None) /\
+  DateTime.ndt_with 9 a v = Val (if v <? 60 then Some (DateTime.mk_ndt d
+     (mk_time (secs_of_hms (hour_of (tsecs t)) (minute_of (tsecs t)) v) (tfrac t))) else None) /\
+  DateTime.ndt_with 10 a v = Val (if v <? 2000000000 then Some (DateTime.mk_ndt d (mk_time (tsecs t) v)) else None).
+Proof. exact ndt_twith_values. Qed.
+Print Assumptions C07_ndt_with_time_values.
+
+(* ---- every op of the dispatcher: which model function answers it ([sh_*]: the argument decoders,
+   Proofs/C07Ops.v); the *_assign ops are answered by the function of the plain operator *)
+Theorem C07_dispatch : forall args,
+  run (B"t.hms") args = sh_u3 (fun h m s => val_of_R vo_time (from_hms_opt h m s)) args /\
+  run (B"t.hms_milli") args = sh_u4 (fun h m s x => val_of_R vo_time (from_hms_milli_opt h m s x)) args /\
+  run (B"t.hms_micro") args = sh_u4 (fun h m s x => val_of_R vo_time (from_hms_micro_opt h m s x)) args /\
+  run (B"t.hms_nano") args = sh_u4 (fun h m s x => val_of_R vo_time (from_hms_nano_opt h m s x)) args /\
+  run (B"t.nsfm") args = sh_u2 (fun s n => vo_time (from_num_seconds_from_midnight_opt s n)) args /\
+  run (B"t.acc") args = sh_t1 t_acc args /\
+  run (B"t.with_hour") args = sh_tu (fun t k => val_of_R vo_time (with_hour t k)) args /\
+  run (B"t.with_minute") args = sh_tu (fun t k => val_of_R vo_time (with_minute t k)) args /\
+  run (B"t.with_second") args = sh_tu (fun t k => val_of_R vo_time (with_second t k)) args /\
+  run (B"t.with_nano") args = sh_tu (fun t k => vo_time (with_nanosecond t k)) args /\
+  run (B"t.add") args = sh_td (fun t d => val_of_R enc_pair (overflowing_add_signed t d)) args /\
+  run (B"t.sub") args = sh_td (fun t d => val_of_R enc_pair (overflowing_sub_signed t d)) args /\
+  run (B"t.opadd") args = sh_td (fun t d => val_of_R enc_time (op_add_td t d)) args /\
+  run (B"t.opsub") args = sh_td (fun t d => val_of_R enc_time (op_sub_td t d)) args /\
+  run (B"t.opadd_assign") args = sh_td (fun t d => val_of_R enc_time (op_add_td t d)) args /\
+  run (B"t.opsub_assign") args = sh_td (fun t d => val_of_R enc_time (op_sub_td t d)) args /\
+  run (B"t.diff") args = sh_tt (fun t u => val_of_R enc_td (signed_duration_since t u)) args /\
+  run (B"t.opdiff") args = sh_tt (fun t u => val_of_R enc_td (op_sub_time t u)) args /\
+  run (B"t.addstd") args = sh_ts (fun t s n => val_of_R enc_time (op_add_std t s n)) args /\
+  run (B"t.substd") args = sh_ts (fun t s n => val_of_R enc_time (op_sub_std t s n)) args /\
+  run (B"t.addstd_assign") args = sh_ts (fun t s n => val_of_R enc_time (op_add_std t s n)) args /\
+  run (B"t.substd_assign") args = sh_ts (fun t s n => val_of_R enc_time (op_sub_std t s n)) args /\
+  run (B"t.addoff") args = sh_to (fun t k => val_of_R enc_time (op_add_offset t k)) args /\
+  run (B"t.suboff") args = sh_to (fun t k => val_of_R enc_time (op_sub_offset t k)) args /\
+  run (B"t.addoffd") args = sh_to (fun t k => val_of_R enc_pair (overflowing_add_offset t k)) args /\
+  run (B"t.suboffd") args = sh_to (fun t k => val_of_R enc_pair (overflowing_sub_offset t k)) args /\
+  run (B"ndt.add") args = sh_nd (fun a d => val_of_R (val_of_option DateTime.enc_ndt) (DateTime.ndt_checked_add_signed a d)) args /\
+  run (B"ndt.sub") args = sh_nd (fun a d => val_of_R (val_of_option DateTime.enc_ndt) (DateTime.ndt_checked_sub_signed a d)) args /\
+  run (B"ndt.opadd") args = sh_nd (fun a d => val_of_R DateTime.enc_ndt (unwrap_r (DateTime.ndt_checked_add_signed a d))) args /\
+  run (B"ndt.opsub") args = sh_nd (fun a d => val_of_R DateTime.enc_ndt (unwrap_r (DateTime.ndt_checked_sub_signed a d))) args /\
+  run (B"ndt.tacc") args = sh_tacc args /\
+  run (B"ndt.twith") args = sh_twith args /\
+  run (B"t.phms") args = sh_u3 (fun h m s => val_of_R enc_time (unwrap_r (from_hms_opt h m s))) args /\
+  run (B"t.phms_milli") args = sh_u4 (fun h m s x => val_of_R enc_time (unwrap_r (from_hms_milli_opt h m s x))) args /\
+  run (B"t.phms_micro") args = sh_u4 (fun h m s x => val_of_R enc_time (unwrap_r (from_hms_micro_opt h m s x))) args /\
+  run (B"t.phms_nano") args = sh_u4 (fun h m s x => val_of_R enc_time (unwrap_r (from_hms_nano_opt h m s x))) args /\
+  run (B"t.pnsfm") args = sh_u2 (fun s n => val_of_R enc_time (unwrap (from_num_seconds_from_midnight_opt s n))) args.
+Proof. exact dispatch. Qed.
+Print Assumptions C07_dispatch.
+Example C07_ops_inhabited :
+  tvalid (DateTime.nd_time (DateTime.mk_ndt Proofs.C07Ndt.leap_date (mk_time 86399 1500000000))) /\
+  unwrap_r (from_hms_opt 24 0 0) = Panic /\ unwrap_r (from_hms_opt 23 59 59) = Val (mk_time 86399 0) /\
+  unwrap (from_num_seconds_from_midnight_opt 86399 1999999999) = Val (mk_time 86399 1999999999).
+Proof. exact ops_inhabited. Qed.
+Print Assumptions C07_ops_inhabited.
